@@ -621,7 +621,9 @@ def write_plotfile(m, path, ref_ratio_extra=0, trailing_blank=True, close_blank=
         h.write(" ".join(ff(v) for v in m.geo_low) + tb + "\n")
         h.write(" ".join(ff(v) for v in m.geo_high) + tb + "\n")
         nrr = nl - 1 + ref_ratio_extra
-        h.write(" ".join(["2"] * nrr) + (tb if nrr else "") + "\n")
+        rr = [str(v) for v in getattr(m, "ratios", [])] or ["2"] * (nl - 1)
+        rr = (rr + ["2"] * nrr)[:nrr]
+        h.write(" ".join(rr) + (tb if nrr else "") + "\n")
         doms = [f"(({','.join(str(x) for x in sh([0] * nd, lv))}) ({','.join(str(x) for x in sh([g - 1 for g in m.grid_sizes[lv]], lv))}) ({zero}))"
                 for lv in range(nl)]
         h.write(" ".join(doms) + tb + "\n")
@@ -714,9 +716,11 @@ def uncovered_mask(m, lv, bi, limit):
     mask = np.ones(b.shape, dtype=bool)
     if lv >= limit:
         return mask
+    r = getattr(m, "ratios", None)
+    r = r[lv] if r else 2
     for fb in m.boxes[lv + 1]:
-        lo = [max(b.lo[d], fb.lo[d] // 2) for d in range(m.ndims)]
-        hi = [min(b.hi[d], fb.hi[d] // 2) for d in range(m.ndims)]
+        lo = [max(b.lo[d], fb.lo[d] // r) for d in range(m.ndims)]
+        hi = [min(b.hi[d], fb.hi[d] // r) for d in range(m.ndims)]
         if all(l <= h for l, h in zip(lo, hi)):
             sl = tuple(slice(lo[d] - b.lo[d], hi[d] - b.lo[d] + 1) for d in range(m.ndims))
             mask[sl] = False
@@ -877,6 +881,35 @@ def deepen(m, nlevels, seed=0):
                                          dtype=np.float64)])
         m.layout.append(_layout(rng, 1, 1, False))
     m.steps = [m.steps[0]] * nlevels
+    return m
+
+
+def refine_top(m, seed=0):
+    """The finest level of a model with >= 2 levels on an index space twice as fine: its refinement ratio
+    becomes 4 (Header ratio line `2 4` for three levels, as AMReX writes with amr.ref_ratio = 2 4). Boxes keep
+    their physical extent, every new cell gets its own value. Only `uncovered_mask` and `write_plotfile` know
+    `m.ratios`: the other reference operations of this module assume the ratio 2 (section 9 of DESIGN.md)."""
+    assert m.nlevels >= 2
+    nprng = np.random.default_rng(seed + 4242)
+    L = m.nlevels - 1
+    m.ratios = [2] * (L - 1) + [4]
+    m.dx = [list(v) for v in m.dx]
+    m.dx[L] = [v / 2 for v in m.dx[L]]
+    m.grid_sizes = [list(g) for g in m.grid_sizes]
+    m.grid_sizes[L] = [2 * g for g in m.grid_sizes[L]]
+    m.boxes = list(m.boxes)
+    m.boxes[L] = [Box([2 * v for v in b.lo], [2 * v + 1 for v in b.hi]) for b in m.boxes[L]]
+    m.data = list(m.data)
+    new = []
+    for a in m.data[L]:
+        for d in range(m.ndims):
+            a = np.repeat(a, 2, axis=d)
+        a = np.array(a, dtype=np.float64, order="F", copy=True)
+        fin = np.isfinite(a)
+        amp = float(np.max(np.abs(a[fin]))) if fin.any() else 1.0
+        a[fin] += (0.05 * (amp or 1.0)) * nprng.standard_normal(int(fin.sum()))
+        new.append(a)
+    m.data[L] = new
     return m
 
 
